@@ -157,6 +157,7 @@ typedef struct {
     buf_t   trace;             /* textual event trace (observable) */
     uint32_t actions;
     sslSessionId_t *sid;       /* client session id store (resumption) */
+    int     corrupt;           /* library buffer accounting went out of range (inlen < 0 or > insize): detected before the harness would write out of bounds */
     int     no_autocollect;    /* world_feed/app_send/close do not drain output (driver collects itself) */
 } world_t;
 
